@@ -387,6 +387,46 @@ func TestVerif_C12(t *testing.T) {
 		}
 
 		nextOrder := 0
+		// every group object ever handed to reserve, so that a later call can hand over the very
+		// same object again (a retry after a refusal / a re-reservation after a release)
+		type c12Call struct {
+			gA, gB *dtypes.GroupSpec
+			units  []c12Unit
+		}
+		var calls []c12Call
+		doReserve := func(units []c12Unit, again *c12Call) {
+			order := c12Order(nextOrder)
+			nextOrder++
+			name := fmt.Sprintf("g%d", order.DSeq)
+			hasPending := false
+			for _, r := range model {
+				if !r.active {
+					hasPending = true
+				}
+			}
+			if hasPending {
+				nontrivial = true
+			}
+			gA, gB := c12Group(name, units), c12Group(name, units)
+			tag := "reserve"
+			if again != nil {
+				gA, gB, name, tag = again.gA, again.gB, again.gA.Name, "reserveSameGroupObject"
+			} else if len(calls) < 8 {
+				calls = append(calls, c12Call{gA, gB, units})
+			}
+			_, errA := A.is.reserve(order, gA)
+			_, errB := B.is.reserve(order, gB)
+			logop("%s(order%d,%v)->%v", tag, order.DSeq, units, errA == nil)
+			if (errA == nil) != (errB == nil) {
+				fail("c12-status-affects-decisions", "reserve(order%d) was %v on the service whose status had been queried and %v on an identical service that was never queried", order.DSeq, errA, errB)
+			}
+			if errA == nil {
+				if ok, why := grantOK(units); !ok {
+					fail("c12-overcommit", "reservation for order%d %v was GRANTED although %s", order.DSeq, units, why)
+				}
+				model = append(model, &c12Res{order: order, group: name, units: units})
+			}
+		}
 		t.Repeat(map[string]func(*rapid.T){
 			"reserve": func(t *rapid.T) {
 				if len(model) >= 5 {
@@ -400,30 +440,15 @@ func TestVerif_C12(t *testing.T) {
 						count: uint32(rapid.IntRange(1, 3).Draw(t, "count")), endpoints: rapid.IntRange(0, 2).Draw(t, "endpoints"),
 					})
 				}
-				order := c12Order(nextOrder)
-				nextOrder++
-				name := fmt.Sprintf("g%d", order.DSeq)
-				hasPending := false
-				for _, r := range model {
-					if !r.active {
-						hasPending = true
-					}
+				doReserve(units, nil)
+				lastWasStatusWithMulti = false
+			},
+			"reserveSameGroupObject": func(t *rapid.T) {
+				if len(model) >= 5 || len(calls) == 0 {
+					t.Skip("nothing to re-use")
 				}
-				if hasPending {
-					nontrivial = true
-				}
-				_, errA := A.is.reserve(order, c12Group(name, units))
-				_, errB := B.is.reserve(order, c12Group(name, units))
-				logop("reserve(order%d,%v)->%v", order.DSeq, units, errA == nil)
-				if (errA == nil) != (errB == nil) {
-					fail("c12-status-affects-decisions", "reserve(order%d) was %v on the service whose status had been queried and %v on an identical service that was never queried", order.DSeq, errA, errB)
-				}
-				if errA == nil {
-					if ok, why := grantOK(units); !ok {
-						fail("c12-overcommit", "reservation for order%d %v was GRANTED although %s", order.DSeq, units, why)
-					}
-					model = append(model, &c12Res{order: order, group: name, units: units})
-				}
+				c := calls[rapid.IntRange(0, len(calls)-1).Draw(t, "which")]
+				doReserve(c.units, &c)
 				lastWasStatusWithMulti = false
 			},
 			"unreserve": func(t *rapid.T) {
